@@ -18,6 +18,7 @@ VF_COMP(uint64_t, 128, 16, double);
 #endif
 #if VF_GROUP == 3
 VF_COMP_BIG(uint64_t, 1, 4, float);
+VF_COMP_SEGS(uint64_t, 1, 4, float);
 VF_COMP(uint64_t, 5, 3, float);
 VF_COMP(uint32_t, 1, 2, double);
 #endif
